@@ -337,7 +337,14 @@ pub broadcast proof fn axiom_iter_items<I: Iterator>(it: I)
 pub assume_specification<T, A: std::alloc::Allocator, I: IntoIterator<Item = T>>[ <Vec<T, A> as Extend<T>>::extend ](v: &mut Vec<T, A>, it: I)
     ensures final(v)@ == old(v)@ + iter_items(it);
 /// little-endian u32 words of a byte string whose length is a multiple of 4
+#[verifier::opaque]
 pub open spec fn le32_words(s: Seq<u8>) -> Seq<u32> { Seq::new(s.len() / 4, |i: int| le32(s.subrange(4 * i, 4 * i + 4)) as u32) }
+
+proof fn lemma_words_len(s: Seq<u8>)
+    ensures le32_words(s).len() == s.len() / 4,
+{
+    reveal(le32_words);
+}
 
 //@@ fn src/utils.rs to_u32 external_body by=to_u32_words ret=r
 //@@ sig
@@ -349,7 +356,9 @@ pub open spec fn le32_words(s: Seq<u8>) -> Seq<u32> { Seq::new(s.len() / 4, |i: 
 //@@ end
 
 // [MS-CFB] 2.2 compound file header (first 512 bytes), field offsets from the specification
+#[verifier::opaque]
 pub open spec fn u16_at(h: Seq<u8>, off: int) -> int { le16(h.subrange(off, off + 2)) }
+#[verifier::opaque]
 pub open spec fn u32_at(h: Seq<u8>, off: int) -> int { le32(h.subrange(off, off + 4)) }
 /// header signature D0 CF 11 E0 A1 B1 1A E1 at offset 0
 pub open spec fn ole_signature() -> Seq<u8> { seq![0xD0u8, 0xCFu8, 0x11u8, 0xE0u8, 0xA1u8, 0xB1u8, 0x1Au8, 0xE1u8] }
@@ -393,6 +402,8 @@ proof fn lemma_signature(h: Seq<u8>)
         !hdr_valid((*old(f)).rem()) ==> res is Err,
         //# C13,C20.header_bad_signature_is_ole_error
         (*old(f)).rem().len() >= 512 && !hdr_signature_ok((*old(f)).rem()) ==> (match res { Err(e) => e is Ole || e is Io, Ok(_) => false }),
+        //# C13,C20.header_valid_accepted
+        hdr_valid((*old(f)).rem()) ==> (match res { Ok(_) => true, Err(e) => e is Io }),
         //# C13,C20.header_io_error_flag
         (res matches Err(CfbError::Io(_)) ==> (*final(f)).io_failed()) && (res is Ok ==> (*final(f)).io_failed() == (*old(f)).io_failed()),
         //# C13.header_fields
@@ -421,6 +432,7 @@ proof fn lemma_signature(h: Seq<u8>)
 //@@ body
         broadcast use axiom_iter_items;
         let ghost inp = (*f).rem();
+        proof { reveal(u16_at); reveal(u32_at); reveal(le32_words); }
 //@@ before /if signature != /
         proof {
             assert(buf@ =~= inp.take(512));
@@ -567,6 +579,7 @@ pub open spec fn first_nul(s: Seq<char>) -> int
 /// [MS-CFB] 2.6.1 directory entry name: UTF-16 text of the 64-byte name field up to its terminating NUL
 pub open spec fn dir_name(b: Seq<u8>) -> Seq<char> { dec16(b).take(first_nul(dec16(b))) }
 /// [MS-CFB] 2.6.1 directory entry (128 bytes): name @0..64, starting sector @116, stream size @120 (32 bits meaningful for 512-byte sectors)
+#[verifier::opaque]
 pub open spec fn dir_ent(e: Seq<u8>, size: int) -> DirEnt {
     DirEnt {
         name: dir_name(e.subrange(0, 64)),
@@ -574,6 +587,7 @@ pub open spec fn dir_ent(e: Seq<u8>, size: int) -> DirEnt {
         len: (if size == 512 { le32(e.subrange(120, 124)) } else { le64(e.subrange(120, 128)) }) as nat,
     }
 }
+#[verifier::opaque]
 pub open spec fn dir_entries(stream: Seq<u8>, size: int) -> Seq<DirEnt> {
     Seq::new((stream.len() / 128) as nat, |i: int| dir_ent(stream.subrange(128 * i, 128 * i + 128), size))
 }
@@ -793,6 +807,14 @@ proof fn lemma_chunks_128(s: Seq<u8>)
         chunk_seq(s, 128).len() == s.len() / 128,
         forall|i: int| 0 <= i < s.len() / 128 ==> #[trigger] chunk_seq(s, 128)[i] == s.subrange(128 * i, 128 * i + 128),
 {
+    reveal(chunk_seq);
+}
+proof fn lemma_dir_entries(s: Seq<u8>, size: int)
+    ensures
+        dir_entries(s, size).len() == s.len() / 128,
+        forall|i: int| 0 <= i < s.len() / 128 ==> #[trigger] dir_entries(s, size)[i] == dir_ent(s.subrange(128 * i, 128 * i + 128), size),
+{
+    reveal(dir_entries);
 }
 
 proof fn lemma_parse_needs_header(inp: Seq<u8>, fuel: nat)
@@ -805,6 +827,7 @@ proof fn lemma_parse_needs_header(inp: Seq<u8>, fuel: nat)
 #[verifier::external_type_specification] #[verifier::external_body] #[verifier::reject_recursive_types(T)]
 pub struct ExChunks<'a, T: 'a>(std::slice::Chunks<'a, T>);
 /// consecutive chunks of `n` elements, the last one possibly shorter
+#[verifier::opaque]
 pub open spec fn chunk_seq<T>(s: Seq<T>, n: int) -> Seq<Seq<T>> {
     Seq::new(((s.len() + n - 1) / n) as nat, |i: int| s.subrange(i * n, if (i + 1) * n <= s.len() { (i + 1) * n } else { s.len() as int }))
 }
@@ -982,6 +1005,7 @@ pub broadcast proof fn lemma_selk_fat_ids(s: Seq<u32>, k: Seq<bool>)
                     assert(difat_walk(data, size, sid, fl).unwrap() == w.drop_last() + difat_walk(data, size, w.last(), (fl - 1) as nat).unwrap());
                     assert((sid as int + 1) * size == sid as int * size + size) by (nonlinear_arith);
                     assert(sector(data, size, sid as int).len() == size);
+                    lemma_words_len(sector(data, size, sid as int));
                     assert(w.len() >= 128);
                 }
             }
@@ -1054,9 +1078,38 @@ pub broadcast proof fn lemma_selk_fat_ids(s: Seq<u32>, k: Seq<bool>)
 //@@ before /if dirs\.is_empty\(\)/
         proof {
             if ok {
+                lemma_chunks_128(dstream);
+                lemma_dir_entries(dstream, size);
                 assert(dirs@.len() == dstream.len() / 128);
                 assert forall|i: int| 0 <= i < dirs@.len() implies #[trigger] dirs@[i].ent() == dir_entries(dstream, size)[i] by {
-                    lemma_chunks_128(dstream);
+                    let c = dstream.subrange(128 * i, 128 * i + 128);
+                    assert(c.subrange(0, 128) =~= c);
+                }
+                assert(Seq::new(dirs@.len(), |i: int| dirs@[i].ent()) =~= pp.dirs);
+            }
+        }
+//@@ before /let ministream = /
+            proof {
+                if ok {
+                    assert(dirs@[0].ent() == pp.dirs[0]);
+                    assert(h.mini_fat_len as int == hdr_num_mini_fat_sectors(inp));
+                }
+                assert(h.mini_fat_len as int * h.sector_size as int <= 0xFFFF_FFFF * 4096) by (nonlinear_arith) requires 0 <= h.mini_fat_len as int <= 0xFFFF_FFFF, 0 <= h.sector_size as int <= 4096;
+                assert(0 <= h.mini_fat_len as int * h.sector_size as int) by (nonlinear_arith) requires 0 <= h.mini_fat_len as int, 0 <= h.sector_size as int;
+            }
+//@@ before /let minifat = to_u32/
+            proof {
+                if ok {
+                    assert(ministream@ == pp.mini_stream);
+                    assert(minifat@ == stream_bytes(data, size, fat, h.mini_fat_start, hdr_num_mini_fat_sectors(inp) * size, f0));
+                }
+            }
+//@@ before /Ok\(Cfb \{/
+        proof {
+            if ok {
+                assert(mini_fats@ == pp.mini_fat && ministream@ == pp.mini_stream);
+                assert forall|fuel: nat| #[trigger] cfb_parse(inp, fuel) is Some implies cfb_parse(inp, fuel) == cfb_parse(inp, f0) by {
+                    lemma_parse_fuel(inp, fuel, f0);
                 }
             }
         }
